@@ -46,6 +46,7 @@ var props = map[string]propSpec{
 	"C02": {Harnesses: []harnessSpec{
 		{Pkg: "protocol", Fn: "VerifC02Auth", Validate: 16, MustReach: []string{"authenticated", "rejected"}, Panics: true, ShardBits: 4},
 		{Pkg: "protocol", Fn: "VerifC02Fetch", Validate: 8, MustReach: []string{"accept-returned"}, Panics: true},
+		{Pkg: "protocol", Fn: "VerifC02FetchAndAuth", Validate: 4, MustReach: []string{"accept-returned"}, Panics: true},
 	}, Assumptions: with("TLS handshake contract model (DESIGN 3.5); native twin: a real crypto/tls client over a loopback connection (vf.AdversaryConn)", "X.509 chain-building model of DESIGN 3.4 (depth 2, validity, EKU, DNS name)"), Explanation: "the real InterceptingListener.Accept (TLS callback, GenerateServerCertificates, ServerConfig and its callbacks, VerifyConnection) against a peer whose certificate issuer, key possession, request key, nonce signature key, node-ID hint, skip flag, common name and preferred root are all symbolic, with two records present or removed and both storage kinds; a fetch handshake with a foreign entry before, after or absent never yields a connection"},
 	"C03": {Harnesses: []harnessSpec{
 		{Pkg: "registration", Fn: "VerifC03Validate", Validate: 16, MustReach: []string{"accepted", "rejected"}, Panics: true, CrossSolver: "z3"},
@@ -79,7 +80,8 @@ var props = map[string]propSpec{
 		{Pkg: "protocol", Fn: "VerifC07RogueServer", Validate: 8, MustReach: []string{"connected", "refused"}, ShardBits: 2},
 		{Pkg: "protocol", Fn: "VerifC07OwnServer", Validate: 8, MustReach: []string{"end"}},
 		{Pkg: "protocol", Fn: "VerifC07Pending", Validate: 4, MustReach: []string{"pending", "end"}, ShardBits: 3},
-	}, Assumptions: with("client-side TLS handshake contract model (DESIGN 3.5): with InsecureSkipVerify the only guards are VerifyConnection and the server's proof of possession of its leaf key; native twin: a real crypto/tls server (vf.RogueServerConn)", "net.Dialer and real sockets (the address handling of protocol.Dial) are outside this check; the pending-authorization path is checked at attemptFetch, with the server side of the handshake computed by the listener's real TLS callback (engine) / a real Accept (native)"),
+		{Pkg: "protocol", Fn: "VerifC07Dial", Validate: 6, MustReach: []string{"only-rogue-peers", "own-server-answers"}, ShardBits: 2},
+	}, Assumptions: with("client-side TLS handshake contract model (DESIGN 3.5): with InsecureSkipVerify the only guards are VerifyConnection and the server's proof of possession of its leaf key; native twin: a real crypto/tls server (vf.RogueServerConn)", "protocol.Dial runs whole; its outgoing connections are answered by scripted peers (engine: (*net.Dialer).DialContext hands out the peers registered with vf.DialScript; native: a loopback listener splices each accepted connection onto the peer), so name resolution, unix sockets and dial errors other than a refused connection are outside; the server side of a handshake with the node's own server is the listener's real TLS callback (engine) / a real Accept (native)"),
 		Explanation: "real ClientConfigs (nonce, signing, ALPN assembly, chain filtering) and its VerifyConnection / GetClientCertificate callbacks against rogue servers (stale certificate for another nonce, foreign root, self-signed, another node's certificate; with or without the leaf key) for each configuration and dial option set; and against the node's own server when only one of its two roots survives; the pending-authorization path (not-authorized error, nothing stored, success with the same key after authorization) with both sides of the handshake running the library's code"},
 	"C08": {Harnesses: []harnessSpec{
 		{Pkg: "rotation", Fn: "VerifC08Rotate", Validate: 16, MustReach: []string{"nothing", "promote", "remint", "startover"}, CrossSolver: "z3"},
@@ -142,6 +144,7 @@ var props = map[string]propSpec{
 		Explanation: "trimmed protocol list on 3 arbitrary ALPN strings; end to end through the node's own ClientConfigs and the listener's Accept: reported list = offered list minus the preference entry (any position), returned as a copy; client state equal to what the node supplied and delivered only for a genuine signature"},
 	"C17": {Harnesses: []harnessSpec{
 		{Pkg: "net", Fn: "VerifC17Routing", Validate: 16, MustReach: []string{"delivered-to-special", "delivered-to-auth", "delivered-to-unauth", "closed-no-listener", "end"}, Panics: true, ShardBits: 4},
+		{Pkg: "net", Fn: "VerifC17LateRegistration", Validate: 4, MustReach: []string{"delivered-to-the-late-listener", "second-connection-has-no-listener", "end"}, Panics: true},
 	}, Assumptions: with("one schedule per path: goroutines are sequentialised coroutines with rendezvous channels (no claim about interleavings, see C18)", "the application's base TLS configuration offers no library-prefixed protocol names", "a mis-routed connection shows up as a deadlock of the harness (it accepts only from the designated sub-listener)"),
 		Explanation: "real SplitListener.Start/GetListener and MultiplexingListener over the real InterceptingListener.Accept: every subset of {specific, non-specific, unauthenticated} sub-listeners, native-connection setting, an authenticated node or a plain TLS client offering an arbitrary extra protocol name (incl. the reserved ones), then base-listener closure"},
 	"C19": {Harnesses: []harnessSpec{
